@@ -309,70 +309,61 @@ func (w *World) trackDelivery(kind, typ, key string, oldJ, newJ []byte, rv uint6
 			w.sh.podPoint(w.view, oldP, false)
 		}
 	case "networkpolicies":
-		var lost map[string]map[string]bool
 		if typ == "DELETED" {
 			delete(w.view.Pols, key)
 		} else if p := w.polByRV[fmt.Sprintf("%s@%d", key, rv)]; p != nil {
-			if old := w.view.Pols[key]; old != nil {
-				lost = roleChanges(old, p)
-			}
 			w.view.Pols[key] = p
 		} else {
 			w.S.Infra = "policy world: no model for delivered policy " + key
 			w.S.Stop()
 		}
-		w.sh.rebuild(w.view)
-		if len(lost) > 0 {
-			w.sh.lostNet = lost
-			w.S.Stat("c16.eq-ipblock-role-change")
-		}
+		w.rebuildShadow()
 	}
 }
 
-// roleChanges lists, per hash:net set that exists before and after a policy update, the members whose role
-// changes between "block" and "exception".
-func roleChanges(old, nw *Policy) map[string]map[string]bool {
+// netRoleFlips lists, per hash:net set a rebuild of the given cluster wants, the members that the kernel holds
+// right now in the OTHER role (block vs exception): what switch ipblock-role-change-member-lost says the rebuild
+// loses. Computed from the kernel state the rebuild starts from, so it covers a policy update as well as a first
+// synchronisation over sets left by an earlier galaxy.
+func netRoleFlips(have func(set string) []string, cl *Cluster) map[string]map[string]bool {
 	out := map[string]map[string]bool{}
-	roles := func(r PRule) map[string]string {
-		m := map[string]string{}
-		for _, pe := range r.Peers {
-			if pe.Block == nil {
-				continue
-			}
-			if c, ok := netMember(pe.Block.CIDR); ok && !strings.HasSuffix(pe.Block.CIDR, "/0") {
-				m[c] = "block"
-			}
-			for _, ex := range pe.Block.Except {
-				if c, ok := netMember(ex); ok {
-					m[c] = "except"
+	e := compile(cl, Switches{D6: true})
+	for _, n := range sortedKeys(e.Sets) {
+		es := e.Sets[n]
+		if es.Type != "hash:net" {
+			continue
+		}
+		role := map[string]bool{} // member -> nomatch?
+		for _, m := range have(n) {
+			f := strings.Fields(m)
+			role[f[0]] = len(f) > 1
+		}
+		for _, m := range es.Members {
+			f := strings.Fields(m)
+			if nm, ok := role[f[0]]; ok && nm != (len(f) > 1) {
+				if out[n] == nil {
+					out[n] = map[string]bool{}
 				}
+				out[n][f[0]] = true
 			}
 		}
-		return m
-	}
-	oin, oeg := old.directions()
-	nin, neg := nw.directions()
-	side := func(or, nr []PRule, egress bool) {
-		for i := 0; i < len(or) && i < len(nr); i++ {
-			a, b := roles(or[i]), roles(nr[i])
-			for c, ra := range a {
-				if rb, ok := b[c]; ok && rb != ra {
-					n := peerSetName(nw, egress, i, true)
-					if out[n] == nil {
-						out[n] = map[string]bool{}
-					}
-					out[n][c] = true
-				}
-			}
-		}
-	}
-	if oin && nin {
-		side(old.Ingress, nw.Ingress, false)
-	}
-	if oeg && neg {
-		side(old.Egress, nw.Egress, true)
 	}
 	return out
+}
+
+// rebuildShadow is called when a full synchronisation (policy handler, Run) starts.
+func (w *World) rebuildShadow() {
+	lost := netRoleFlips(func(set string) []string {
+		if s := w.Kern.Sets[set]; s != nil {
+			return s.Members()
+		}
+		return nil
+	}, w.view)
+	w.sh.rebuild(w.view)
+	if len(lost) > 0 {
+		w.sh.lostNet = lost
+		w.S.Stat("c16.eq-ipblock-role-change")
+	}
 }
 
 // gapOf names the event kind that is the cause of galaxy's membership (shadow) differing from the API state for
